@@ -816,6 +816,29 @@ fn main() {
             }
         }
     }
+    // ---- 64-bit integers above 2^53 (neighbouring values are indistinguishable as f64): the exact groups (counts, sum,
+    // extrema, positions) must be computed in the element type, never after a lossy widening to f64
+    {
+        let p53: i64 = 1 << 53;
+        let wide: [Option<i64>; 5] = [Some(p53), Some(p53 + 1), Some(p53 + 2), Some(-p53 - 1), Some(p53 + 1)];
+        for len in 1..=3usize {
+            for k in enumerate(&wide, len) {
+                if len == 3 && !rng.chance(1, 2) { continue; }
+                let s = Series { k, den: 1, tags: "style=wide_i64 nulls=none".into() };
+                let xi64 = s.i64s();
+                let cz = coq_zs(&xi64);
+                let shown = format!("{:?}", xi64);
+                let vals_z64: Vec<i64> = vec![p53, p53 + 1, xi64[0]];
+                let vals_z_coq = coq_zs(&vals_z64);
+                valid_groups!(em, "z", "i64", "vec", &s, cz, &vals_z64, vals_z_coq, shown, || xi64.clone(), || xi64.clone(), 3);
+                let xo: Vec<Option<i64>> = xi64.iter().map(|x| Some(*x)).collect();
+                let vo: Vec<Option<i64>> = vals_z64.iter().map(|x| Some(*x)).collect();
+                let coz = coq_ozs(&xo);
+                let vo_coq = coq_ozs(&vo);
+                valid_groups!(em, "oz", "opti64", "vec", &s, coz, &vo, vo_coq, shown, || xo.clone(), || xo.clone(), 3);
+            }
+        }
+    }
     // ---- large-magnitude integers: every element and the plain sum fit the element type (i32), the sum of SQUARES
     // does not — the library accumulates moments in f64, so nothing may overflow; an accumulation moved into the element
     // type (a "save a cast per element" refactoring) is visible only here
